@@ -26,6 +26,10 @@ ITEMS = [
     ("same_method", "class Other(object):\n    def train(self, a):\n        return a\n\n    def set_cli_args(self, argument_parser):\n        return argument_parser\n"),
     ("nested_same", "class Outer(object):\n    class ConfigClass(object):\n        q: int = 1\n\n    def train(self, a=1):\n        return a\n"),
     ("unrelated", "class Unrelated(object):\n    y: int = 2\n"),
+    # syntax variety that a whole-module re-emission must carry unchanged
+    ("posonly_varargs", "def clamp(value, low, high, /, *rest, strict=False, **extra):\n    return value\n"),
+    ("decorated_async", "import functools\n\n\n@functools.lru_cache(maxsize=None)\ndef cached(n: int = 3) -> int:\n    return n\n\n\nasync def fetch(url, *, timeout=1.0):\n    return url\n"),
+    ("control_flow", "if (FLAG := True):\n    LIMIT = 1\nelse:\n    LIMIT = 2\ntry:\n    import json\nexcept ImportError:\n    json = None\n"),
 ]
 MEMBERS = [
     ("attr", "    other_attr: str = 'o'\n"),
